@@ -530,16 +530,18 @@ pub fn block(cfg: &DocCfg) -> BoxedStrategy<Blk> {
     block_in(cfg, "top", cfg.depth)
 }
 
-fn separate_lists(bs: &mut Vec<Blk>) {
+fn separate_lists(bs: &mut Vec<Blk>, keep_apart: bool) {
     // Two lists of the same kind that end up adjacent in the output are one list to any Markdown
     // reader; raw HTML blocks between them are dropped by iwe, and an indented code block after a
-    // list belongs to the last item. Keep such shapes out of the strict domain.
+    // list belongs to the last item. `keep_apart` keeps adjacent lists out of the domain (known
+    // finding); an indented code block after a list is always written fenced, because it would
+    // not be a code block.
     let mut i = 0;
     let mut last: Option<bool> = None; // ordered flag of the last non-html block if it is a list
     while i < bs.len() {
         match &mut bs[i] {
-            Blk::Quote(inner) => separate_lists(inner),
-            Blk::List { items, .. } => items.iter_mut().for_each(|it| separate_lists(it)),
+            Blk::Quote(inner) => separate_lists(inner, keep_apart),
+            Blk::List { items, .. } => items.iter_mut().for_each(|it| separate_lists(it, keep_apart)),
             _ => {}
         }
         match &mut bs[i] {
@@ -547,7 +549,7 @@ fn separate_lists(bs: &mut Vec<Blk>) {
             Blk::List { items, .. } if items.iter().all(|it| it.is_empty()) => {}
             Blk::List { ordered, .. } => {
                 let o = *ordered;
-                if last == Some(o) {
+                if keep_apart && last == Some(o) {
                     bs.insert(i, Blk::Para(vec![Inl::W(0, 0)]));
                     i += 1;
                 }
@@ -655,9 +657,7 @@ pub fn doc(cfg: &DocCfg) -> BoxedStrategy<Doc> {
                     }
                 }
             }
-            if !adjacent_lists {
-                separate_lists(&mut blocks);
-            }
+            separate_lists(&mut blocks, !adjacent_lists);
             if !dash_rule_in_quote {
                 no_dash_rule_in_quote(&mut blocks, false);
             }
